@@ -127,9 +127,11 @@ def r2(ctx):
 
 def r3(ctx):
     R = "C20-R3"
-    ctx.rule(R, "trigger: on the Noop edge oneshot::Sender::send(()) precedes the report; on the Suspend edge the one-shot sender is moved into "
-                "Some(..) of the report; the Panic edge diverges (no report, no await); the report precedes the Yield (await of the release); "
-                "trigger_noop: Suspend and Panic edges diverge")
+    ctx.rule(R, "trigger: on the Noop edge the trigger is reported and no await is reachable (an observe-only barrier is not a yield point: "
+                "awaiting an already completed one-shot still yields once the task's coop budget is used up); on the Suspend edge the "
+                "one-shot sender is moved into Some(..) of the report; on the Panic edge the trigger is reported exactly once and then the "
+                "code diverges (no await, no return) - every matching trigger is reported, whatever the reaction; the report precedes the "
+                "Yield (await of the release); trigger_noop: the Suspend edge diverges, the Panic edge reports once and diverges")
     b = ctx.body(R, "turmoil::barriers::trigger::{closure#0}")
     if b:
         ves = [v for v in variant_edges(b, lambda p: True) if v[3] == "turmoil::barriers::Reaction"]
@@ -139,8 +141,11 @@ def r3(ctx):
         if ves:
             sbb, m, els, adt, pl = ves[0]
             ne, se, pe = m.get("Noop"), m.get("Suspend"), m.get("Panic")
-            ok_n = bool(ne) and any(b.dominated_by_edge(x, ne) for x in os_) and all(any(s in b.reachable(x) for s in sends) for x in os_ if b.dominated_by_edge(x, ne))
-            ctx.inst(R, "trigger:noop-self-releases", ok_n, b.term(ne[1]).get("s", b.span) if ne else b.span, "a Noop barrier never blocks the trigger" if ok_n else "the Noop arm does not release the one-shot before awaiting it")
+            rn = b.reachable(ne[1]) if ne else set()
+            ok_n = bool(ne) and any(s in rn for s in sends) and not any(y in rn for y in ys)
+            ctx.inst(R, "trigger:noop-self-releases", ok_n, b.term(ne[1]).get("s", b.span) if ne else b.span, "a Noop barrier reports and returns without awaiting anything" if ok_n else
+                     "the Noop arm of trigger() goes on to `rx.await`: the one-shot is already completed, but polling it consumes the task's coop budget and returns Pending "
+                     "once the budget is used up - an observe-only barrier changes the interleaving of the code it observes (300 triggers: 2 forced yields)")
             ok_s = False
             if se:
                 for x in b.reachable(se[1]):
@@ -152,8 +157,14 @@ def r3(ctx):
                 ok_s = ok_s and not any(b.dominated_by_edge(x, se) for x in os_)
             ctx.inst(R, "trigger:suspend-hands-over-release", ok_s, b.term(se[1]).get("s", b.span) if se else b.span, "a Suspend barrier hands the release to the test and does not release itself" if ok_s else
                      "the Suspend arm does not move the one-shot sender into the report (or releases it itself): the source is not suspended")
-            ok_p = bool(pe) and not any(x in b.reachable(pe[1]) for x in sends + ys) and not any(b.term(x)["k"] == "return" for x in b.reachable(pe[1]))
-            ctx.inst(R, "trigger:panic-diverges", ok_p, b.term(pe[1]).get("s", b.span) if pe else b.span, "a Panic barrier panics the triggering code" if ok_p else "the Panic arm does not diverge")
+            rp = b.reachable(pe[1]) if pe else set()
+            sp = [x for x in sends if pe and b.dominated_by_edge(x, pe)]
+            div = bool(pe) and not any(x in rp for x in ys) and not any(b.term(x)["k"] == "return" for x in rp)
+            ok_p = div and len(sp) == 1
+            ctx.inst(R, "trigger:panic-diverges", ok_p, b.term(pe[1]).get("s", b.span) if pe else b.span, "a Panic barrier reports the trigger, then panics the triggering code" if ok_p else
+                     ("the Panic arm does not diverge" if not div else
+                      f"the Panic arm of trigger() panics {'without reporting' if not sp else 'after reporting more than once'}: a trigger that matched a live Panic barrier is never "
+                      "shown to the test (wait() cannot return it) although every matching trigger is to be reported exactly once"))
         else:
             ctx.bad(R, "trigger:reaction-match", b.span, "no match on Reaction in trigger")
         ok_y = bool(ys) and bool(sends) and all(any(b.dominated_by_block(y, s) for s in sends) for y in ys)
@@ -161,13 +172,21 @@ def r3(ctx):
     tn = ctx.body(R, "turmoil::barriers::trigger_noop")
     if tn:
         sends = [bb for bb, t in tn.calls(re.compile(r"^tokio::sync::mpsc::UnboundedSender::send$"))]
-        ok = True
+        ok, okp = True, None
         for sbb, m, els, adt, pl in [v for v in variant_edges(tn, lambda p: True) if v[3] == "turmoil::barriers::Reaction"]:
             for v in ("Suspend", "Panic"):
                 e = m.get(v)
-                if e and (any(x in tn.reachable(e[1]) and tn.dominated_by_edge(x, e) for x in sends) or any(tn.term(x)["k"] == "return" and tn.dominated_by_edge(x, e) for x in tn.reachable(e[1]))):
+                if not e:
+                    continue
+                rets = any(tn.term(x)["k"] == "return" and tn.dominated_by_edge(x, e) for x in tn.reachable(e[1]))
+                sv = [x for x in sends if x in tn.reachable(e[1]) and tn.dominated_by_edge(x, e)]
+                if rets or (v == "Suspend" and sv):
                     ok = False
-        ctx.inst(R, "trigger_noop:suspend-and-panic-diverge", ok, tn.span, "trigger_noop panics for Suspend / Panic barriers" if ok else "trigger_noop reports or returns for a Suspend / Panic barrier")
+                if v == "Panic":
+                    okp = (not rets) and len(sv) == 1
+        ctx.inst(R, "trigger_noop:suspend-and-panic-diverge", ok, tn.span, "trigger_noop panics for Suspend / Panic barriers" if ok else "trigger_noop reports or returns for a Suspend barrier / returns for a Panic barrier")
+        ctx.inst(R, "trigger_noop:panic-reports-first", bool(okp), tn.span, "trigger_noop reports the trigger to a Panic barrier before panicking" if okp else
+                 "trigger_noop panics for a Panic barrier without reporting the trigger that matched it")
     ctx.floor(R, 5)
 
 
